@@ -113,27 +113,27 @@ def reader_ownership(ctx, rule):
               "the underlying record iterator is touched only by Sequences::next",
               "`Sequences.records` is also used by %s: records can be consumed without the ordinal advancing "
               "(numbering 0,1,2,.. would restart or skip)" % extra, line_of(users[extra[0]]) if extra else None)
-    if n_lit < 2:
-        ctx.fail(rule, "Sequence_literal:floor", "expected the 2 Sequence literals of Sequences::next, found %d" % n_lit)
-    if n_w < 4:
-        ctx.fail(rule, "current_record:floor", "expected 4 ordinal initialisations/updates in ktio::seq, found %d" % n_w)
+    if n_lit < 1:
+        ctx.fail(rule, "Sequence_literal:floor", "no Sequence literal found in Sequences::next")
+    if n_w < 2:
+        ctx.fail(rule, "current_record:floor", "expected an ordinal initialisation and an update in ktio::seq, found %d" % n_w)
 
 
-def ordinal_rule(ctx, rule):
-    from ..core import sym_paths
-    fv = ctx.need(rule, NEXT)
-    if fv is None:
-        return
+def next_deliveries(fv):
+    """paths through the whole body of Sequences::next, grouped by the arm of `match self.records` they take:
+    [(variant, arm, delivered [(path, record term)], nothing [path])] -- wherever the Sequence is assembled
+    (inside the arms or once after the match)"""
+    from ..core import sym_paths, pat_term
     m = next((n for n in fv.nodes if n.get("k") == "match"
               and n["e"].get("k") == "field" and n["e"]["name"] == "records"), None)
     if m is None:
-        ctx.fail(rule, "next:dispatch", "match on self.records not found", fv.fn["sp"])
-        return
-    cr = SF("current_record")
-    sigs = []
+        return None, []
+    allp = sym_paths(fv, fv.body)
+    out = []
     for i, arm in enumerate(m["arms"]):
         variant = norm_path(arm["pat"].get("path", "")).split("::")[-1] or "arm%d" % i
-        paths = sym_paths(fv, arm["body"])
+        pt = pat_term(arm["pat"])
+        paths = [sp for sp in allp if any(nd is m and t[0] == "arm" and t[2] == pt for t, _, nd in sp.conds)]
         delivered = []
         nothing = []
         for sp in paths:
@@ -144,6 +144,21 @@ def ordinal_rule(ctx, rule):
                 delivered.append((sp, some_of(res)))
             elif is_none(res):
                 nothing.append(sp)
+        out.append((variant, arm, delivered, nothing))
+    return m, out
+
+
+def ordinal_rule(ctx, rule):
+    fv = ctx.need(rule, NEXT)
+    if fv is None:
+        return
+    m, groups = next_deliveries(fv)
+    if m is None:
+        ctx.fail(rule, "next:dispatch", "match on self.records not found", fv.fn["sp"])
+        return
+    cr = SF("current_record")
+    sigs = []
+    for variant, arm, delivered, nothing in groups:
         if len(delivered) != 1 or not nothing:
             ctx.fail(rule, "next:%s:some_path" % variant, "expected one path delivering Some(Sequence{..}) and a path "
                      "delivering None in the %s arm (found %d / %d)" % (variant, len(delivered), len(nothing)), line_of(arm["body"]))
